@@ -38,18 +38,30 @@ def lookup_semantics(prog, rep):
     except AnalysisError as e:
         rep.analysis_error("lookup", key, e, b.where())
         return
-    res = {}
-    for o in outs:
-        br = tuple(v for k, v in o.state.log if k[0] == "bsearch")
+    from .. import tables
+
+    tabs, _ = tables.all_tables(prog)
+    rows = tabs.get(ts.P + "usernames::WIDE_NARROW_MAPPING")
+    if rows is None:
+        rep.ob("lookup", "get_decomposition_mapping", False, "WIDE_NARROW_MAPPING not folded", b.where(), key="lookup|semantics")
+        return
+
+    def decode(o):
         v = o.value
-        if o.kind != "return":
-            res[br] = o.kind
-        elif isinstance(v, ip.Adt) and v.ty == ip.OPTION:
-            res[br] = "None" if v.variant == 0 else ("Some(row value)" if isinstance(v.fields[0], Sym) and v.fields[0].name[0] in ("t", "elem", "f") or isinstance(v.fields[0], Sym) else "Some(%r)" % (v.fields[0],))
-        else:
-            res[br] = repr(v)
-    okk = res == {("Ok",): "Some(row value)", ("Err",): "None"} and not w.findings and not w.probe_panics
-    rep.ob("lookup", "get_decomposition_mapping: found ⇒ Some(that row's mapping), miss ⇒ None", okk, "extracted %s findings %s" % (res, [f["detail"] for f in w.findings][:2]), b.where(), key="lookup|semantics")
+        if isinstance(v, ip.Adt) and v.ty == ip.OPTION:
+            if v.variant == 0:
+                return ("const", None)
+            x = v.fields[0]
+            if isinstance(x, ip.I):
+                return ("const", x.v)
+            if isinstance(x, Sym):
+                return ("row",)
+        return ("other", repr(v))
+
+    err = common.exact_lookup(outs, "cp", "u32", rows, None, decode)
+    if err is None and (w.findings or w.probe_panics):
+        err = "; ".join([f["detail"] for f in w.findings[:2]] + [str(p) for p in w.probe_panics[:1]])
+    rep.ob("lookup", "get_decomposition_mapping(cp) = Some(the table's mapping of cp), None when not listed — for every code point (%d paths)" % len(outs), err is None, err or "", b.where(), key="lookup|semantics", sample=True)
 
 
 def run(tier):
